@@ -18,7 +18,7 @@ ASSUMPTIONS = [
     "back-off: integer factory parameters as in the signature; max_exponent capped at 20000 for cost",
 ]
 EVAL_COUNTER = "evaluations"
-REQUIRED = ["backoff_evals", "next_evals", "overdue_evals", "delay_until_ahead", "now_before_base", "now_on_grid"]
+REQUIRED = ["backoff_evals", "next_evals", "overdue_evals", "delay_until_ahead", "now_before_base", "now_on_grid", "with_scheduled_time"]
 
 US = timedelta(microseconds=1)
 
@@ -90,11 +90,14 @@ def check_backoff(params, ns, out, stats, fps):
         fps.add(f"backoff/{cls}/{'cap' if n >= mexp else 'grow'}/{len(str(mx))}/{len(str(n))}")
 
 
-def check_next(ts, now, p, du, out, stats, fps):
+def check_next(ts, now, p, du, out, stats, fps, sched=None):
+    """`sched`: the scheduled time the message carries for its current run (next_execution_time), if any.
+    The statement speaks of "its time base" without fixing it: the creation timestamp, the scheduled time of the
+    current run and deferred_until are all accepted as the base of the period grid."""
     from repid.data._parameters import DelayProperties, Parameters
     from rv.sim.clock import pin
 
-    params = Parameters(delay=DelayProperties(delay_until=du, defer_by=p), timestamp=ts)
+    params = Parameters(delay=DelayProperties(delay_until=du, defer_by=p, next_execution_time=sched), timestamp=ts)
     pin(now)
     stats["evaluations"] += 1
     stats["next_evals"] += 1
@@ -114,11 +117,12 @@ def check_next(ts, now, p, du, out, stats, fps):
     if nxt is None:
         out.append(_viol("next_window", "none", ctx))
         return
-    if du is not None and nxt == du and (nxt - ts) % p != timedelta(0):
+    bases = [b for b in (ts, sched, du) if b is not None]
+    if du is not None and nxt == du:
         out.append(_viol("deferred_until", "stale", ctx))
         return
-    if (nxt - ts) % p != timedelta(0):
-        out.append(_viol("next_not_on_grid", "grid", ctx))
+    if not any((nxt - b) % p == timedelta(0) for b in bases):
+        out.append(_viol("next_not_on_grid", "grid", ctx + f" sched={sched}"))
     if not (now < nxt <= now + p):
         out.append(_viol("next_window", "window", ctx))
     rel = "before" if now < ts else "at" if now == ts else "after"
@@ -230,7 +234,11 @@ def run_case(case):
                 du = now - rnd.choice([timedelta(0), US, timedelta(seconds=1), timedelta(seconds=rnd.randint(1, 10**6))])
             if now.year < 1971 or now.year > 2250:
                 continue
-            check_next(ts, now, p, du, out, stats, fps)
+            sched = None
+            if rnd.random() < 0.3:
+                sched = now - timedelta(seconds=rnd.randint(0, 10**5), microseconds=rnd.randint(0, 999999))
+                stats["with_scheduled_time"] += 1
+            check_next(ts, now, p, du, out, stats, fps, sched)
     elif kind == "next_grid":
         ts = datetime(2040, 1, 1, 0, 0, 0)
         for p in (timedelta(seconds=1), timedelta(seconds=1, microseconds=1), timedelta(seconds=2.5), timedelta(seconds=10), timedelta(seconds=3600), timedelta(seconds=10**7)):
